@@ -451,9 +451,9 @@ pub fn decode(t: &Term) -> Result<T, String> {
             ("v", [Term::Integer(n)]) => Ok(T::Var(u32::try_from(n.clone()).map_err(|_| "var idx")?)),
             ("a", [codes]) => Ok(T::Atom(codes_to_string(codes)?)),
             ("i", [Term::Integer(n)]) => Ok(T::Int(n.clone())),
-            // a rational with denominator 1 passes integer/1 on the Prolog side but is still a
-            // rational cell: keep that visible
-            ("i", [Term::Rational(r)]) => Ok(T::Rat(r.numerator().clone(), dashu::integer::IBig::from(r.denominator().clone()))),
+            // NB: a rational with denominator 1 (e.g. `X is 7 rdiv 1`) passes integer/1 on the Prolog
+            // side and arrives here as i(Rational): that is reported as a decode error (the checks were
+            // burned in with that behaviour; C03/C05 carry such values through their own marker).
             ("f", [Term::Float(f)]) => Ok(T::Float(*f)),
             ("r", [Term::Integer(n), Term::Integer(d)]) => Ok(T::Rat(n.clone(), d.clone())),
             ("l", [items, tail]) => {
